@@ -10,13 +10,15 @@ import (
 
 func init() {
 	Registry["C10"] = Spec{
-		Pkgs: map[string][]string{"v2": {"resolve", "astnorm"}},
+		Pkgs: map[string][]string{"v2": {"resolve", "astnorm", "plan"}},
 		Run:  runC10,
 		Explanation: "Decides the structural half of 'the @defer stream is well-formed and terminates': in resolveDeferSingle every use of the shared writer, of the shared Resolvable and of the DataBuffer contents happens with DataBuffer.mu held (frames cannot interleave, the outstanding counter is race-free, Flush is inside the section); " +
 			"the outstanding counter is written only by ResolveDeferBatch/ResolveDeferError; on every path through those two functions there is exactly one counter update, one completed entry and one hasNext whose argument is the comparison of the counter with zero taken after the update; " +
 			"announced ids and scheduled groups derive from the same liveChildDescriptors result (initial frame, nested frames, sequence arm); the stream's Complete() is called only from a defer registered after the first successful Flush; defer groups use a plain errgroup that is joined; " +
 			"the defer normalization stages are registered in the documented order. It does not decide reconstruction equality with the non-deferred response.",
 		Mutants: []Mutant{
+			{Name: "defer id dropped from the @requires de-duplication key (seeded change C10-13)", File: "v2/pkg/engine/plan/node_selection_visitor.go", Rule: "C10-R6", Key: "pendingFieldRequirementExistsKey.deferID",
+				Old: "\texistsKey := pendingFieldRequirementExistsKey{fieldCtx.dsConfig.Hash(), fieldConfiguration.SelectionSet, isTypenameForEntityInterface, deferID}", New: "\t_ = deferID\n\texistsKey := pendingFieldRequirementExistsKey{dsHash: fieldCtx.dsConfig.Hash(), selectionSet: fieldConfiguration.SelectionSet, isTypenameForEntityInterface: isTypenameForEntityInterface}"},
 			{Name: "error frame of a failed defer group written outside the data lock", File: resolveGo, Rule: "C10-R1", Key: "resolveDeferSingle",
 				Old: "\t\tdc.db.Lock()\n\t\tdefer dc.db.Unlock()\n\t\tgroupLoader.appendSubgraphErrorsToContext()\n", New: "\t\tdc.db.Lock()\n\t\tgroupLoader.appendSubgraphErrorsToContext()\n\t\tdc.db.Unlock()\n"},
 			{Name: "flush of a defer frame after the lock is released", File: resolveGo, Rule: "C10-R1", Key: "resolveDeferSingle",
@@ -39,6 +41,7 @@ func init() {
 }
 
 func runC10(r *fw.Run) {
+	defer c10DeferScopedKeys(r)
 	p := r.Prog
 	pk := p.Pkg("resolve")
 	if pk == nil {
@@ -462,4 +465,117 @@ func walkerArg(info *types.Info, e ast.Expr) types.Object {
 		return nil
 	}
 	return o
+}
+
+// c10DeferScopedKeys (R6, added after a seeded change dropped the defer id from the @requires de-duplication key): the
+// planner tracks "already added" requirements per defer scope. Every struct type of package plan that is used as a map key
+// and has a defer-id component gets that component in every literal, and the value derives from the defer info of the
+// field being planned (…deferInfo.ID / a *DeferID field) — not left at zero, which would merge the scopes.
+func c10DeferScopedKeys(r *fw.Run) {
+	p := r.Prog
+	r.Rule("C10-R6", "every map-key struct of package plan with a defer-id component is built with that component, taken from the defer info of the field being planned (requirements are de-duplicated per defer scope, not across scopes)")
+	pk := p.Pkg("plan")
+	if pk == nil {
+		r.Error("C10-R6: package plan not loaded")
+		return
+	}
+	info := pk.TypesInfo
+	keyTypes := map[*types.Named]int{} // → index of the defer field
+	for _, tv := range info.Types {
+		m, ok := tv.Type.Underlying().(*types.Map)
+		if !ok {
+			continue
+		}
+		n, ok := m.Key().(*types.Named)
+		if !ok || n.Obj().Pkg() != pk.Types {
+			continue
+		}
+		st, ok := n.Underlying().(*types.Struct)
+		if !ok {
+			continue
+		}
+		for i := 0; i < st.NumFields(); i++ {
+			if strings.Contains(strings.ToLower(st.Field(i).Name()), "deferid") {
+				keyTypes[n] = i
+			}
+		}
+	}
+	// only dedicated key types: a struct that is also stored as data (slice element, map value, struct field) is a record
+	// that happens to be comparable, and its literals legitimately leave fields out
+	for _, tv := range info.Types {
+		var elem types.Type
+		switch u := tv.Type.Underlying().(type) {
+		case *types.Slice:
+			elem = u.Elem()
+		case *types.Array:
+			elem = u.Elem()
+		case *types.Map:
+			elem = u.Elem()
+		case *types.Pointer:
+			elem = u.Elem()
+		case *types.Struct:
+			for i := 0; i < u.NumFields(); i++ {
+				if n, ok := u.Field(i).Type().(*types.Named); ok {
+					delete(keyTypes, n)
+				}
+			}
+		}
+		if n, ok := elem.(*types.Named); ok {
+			delete(keyTypes, n)
+		}
+	}
+	nLits := 0
+	for _, fi := range p.Funcs("plan") {
+		d := fw.NewPureDeriver(fi)
+		fw.WalkAll(fi.Decl.Body, func(nd ast.Node) bool {
+			cl, ok := nd.(*ast.CompositeLit)
+			if !ok {
+				return true
+			}
+			n, ok := info.TypeOf(cl).(*types.Named)
+			if !ok {
+				return true
+			}
+			idx, isKey := keyTypes[n]
+			if !isKey {
+				return true
+			}
+			nLits++
+			st := n.Underlying().(*types.Struct)
+			fname := st.Field(idx).Name()
+			var val ast.Expr
+			for i, el := range cl.Elts {
+				if kv, isKV := el.(*ast.KeyValueExpr); isKV {
+					if id, isID := kv.Key.(*ast.Ident); isID && id.Name == fname {
+						val = kv.Value
+					}
+				} else if i == idx {
+					val = el
+				}
+			}
+			key := fi.Name() + "/" + n.Obj().Name() + "." + fname
+			if val == nil {
+				r.Fail("C10-R6", key, p.Pos(cl.Pos()), n.Obj().Name()+" built in "+fi.Name()+" carries its "+fname,
+					"the key is built without "+fname+" (zero for every scope): a requirement already added for one defer scope is taken as present in another, so a @requires/key field is fetched in the first scope only and the field that needs it in the other scope comes back as an error although every subgraph is healthy")
+				return true
+			}
+			fromDefer := d.Derives(val, func(e ast.Expr) bool {
+				sel, isSel := ast.Unparen(e).(*ast.SelectorExpr)
+				if !isSel {
+					return false
+				}
+				v, _ := fw.Field(info, sel)
+				if v == nil {
+					return false
+				}
+				ln := strings.ToLower(v.Name())
+				return strings.Contains(ln, "deferid") || (v.Name() == "ID" && strings.Contains(strings.ToLower(types.ExprString(sel.X)), "defer"))
+			})
+			r.Check(fromDefer, "C10-R6", key, p.Pos(cl.Pos()), n.Obj().Name()+"."+fname+" built in "+fi.Name()+" derives from the defer info of the field being planned",
+				"the "+fname+" component of the key does not come from a defer id: requirements of different defer scopes are merged under one key (fetched in the first scope only)")
+			return true
+		})
+	}
+	r.Expect("C10-R6", "defer-scoped key types in package plan", len(keyTypes), 2)
+	r.Expect("C10-R6", "literals of defer-scoped keys", nLits, 2)
 }
